@@ -671,7 +671,7 @@ def conc_configs(tier):
         for ob in obs:
             for s in ((-9, 3, 0) if not T else STATUSES):
                 out.append((dict(script=sc, observer=ob, env=('exit', 0.0, s),
-                                 eintr=0, lines=True), lb))
+                                 eintr=0, lines=True), lb - 1))
     for sc in tscripts:
         for d in (0.0, 0.05, 0.3):
             out.append((dict(script=sc, env=('on-term', d), eintr=0), bound))
@@ -763,6 +763,95 @@ NOT_FATAL = ('SIGCHLD', 'SIGCONT', 'SIGURG', 'SIGWINCH', 'SIGSTOP', 'SIGTSTP',
 GATE_WAIT_S = 300           # leak protection only: a gated child gives up
 SURVIVED = 97               # exit status of a child its signal did not kill
 GAVE_UP = 98                # exit status of a child whose gate never opened
+
+
+WATCHDOG_S = 15             # see guarded_joins
+WATCHDOG_TRIPS = 5
+TIMED_JOINS = (('join(0)', 0), ('join(-1)', -1), ('join(-0.25)', -0.25),
+               ('join(timeout=0.05)', 0.05))
+
+
+class Helper:
+    """A raw fork()ed echo process (no billiard code in it).  A completed
+    round trip shows that this process AND another one were scheduled: while
+    round trips complete, machine load is not what keeps a call from
+    returning."""
+
+    def __init__(self):
+        a_r, a_w = os.pipe()
+        b_r, b_w = os.pipe()
+        self.pid = os.fork()
+        if self.pid == 0:
+            try:
+                os.close(a_w)
+                os.close(b_r)
+                while True:
+                    d = os.read(a_r, 1)
+                    if not d:
+                        break
+                    os.write(b_w, d)
+            finally:
+                os._exit(0)
+        os.close(a_r)
+        os.close(b_w)
+        self.w, self.r = a_w, b_r
+
+    def round_trip(self):
+        os.write(self.w, b'x')
+        return os.read(self.r, 1) == b'x'
+
+    def close(self):
+        try:
+            os.kill(self.pid, signal.SIGKILL)
+        except OSError:
+            pass
+        os.waitpid(self.pid, 0)
+
+
+HELPER = None
+
+
+def guarded_joins(errors, obs, p, calls):
+    """Timed joins on a child that is blocked on its gate (only this process
+    can open it).  They run in a thread; 'did not return' is concluded only
+    when the call is still pending after WATCHDOG_S seconds during which
+    WATCHDOG_TRIPS round trips with the helper process completed -- a
+    logical verdict (the call has no reason left to be pending), not a
+    timing bound on a call that returns.  Returns False after a hang (the
+    child is then killed so that the pending call comes back)."""
+    import threading
+    import time
+    state = {'at': None}
+
+    def run():
+        for label, t in calls:
+            state['at'] = label
+            try:
+                p.join(t)
+            except BaseException as exc:                # noqa
+                errors.append('%s raised %s: %s' % (
+                    label, type(exc).__name__, str(exc)[:120]))
+        state['at'] = None
+    th = threading.Thread(target=run, daemon=True)
+    t0 = time.monotonic()
+    th.start()
+    th.join(2.0)
+    trips = 0
+    while th.is_alive() and (time.monotonic() - t0 < WATCHDOG_S or
+                             trips < WATCHDOG_TRIPS):
+        th.join(1.0)
+        if th.is_alive() and HELPER is not None and HELPER.round_trip():
+            trips += 1
+    if not th.is_alive():
+        return True
+    obs['hang'] = dict(call=state['at'], round_trips=trips,
+                       waited_at_least_s=WATCHDOG_S)
+    try:
+        os.kill(p.pid, signal.SIGKILL)
+    except OSError:
+        pass
+    th.join(60)
+    return False
 
 
 def fatal_signals():
@@ -886,8 +975,8 @@ def real_case(case):
                 errors, 'exitcode/is_alive of a blocked child',
                 lambda: [p.exitcode, p.is_alive(),
                          p in billiard.active_children()])
-            _try(errors, 'join(0)', lambda: p.join(0))
-            _try(errors, 'join(timeout=0.05)', lambda: p.join(timeout=0.05))
+            if not guarded_joins(errors, obs, p, TIMED_JOINS):
+                return obs
             obs['after_timed_join'] = _try(
                 errors, 'exitcode/is_alive after a timed join',
                 lambda: [p.exitcode, p.is_alive()])
@@ -965,6 +1054,9 @@ def real_main():
         pass
     res = []
     import time
+    global HELPER
+    HELPER = Helper()
+    aborted = None
     for case in args['cases']:
         t0 = time.monotonic()
         try:
@@ -972,15 +1064,20 @@ def real_main():
             res[-1]['wall_s'] = round(time.monotonic() - t0, 2)  # diagnostics
             if (res[-1].get('ended') or [None])[0] == GAVE_UP and \
                     case['arg'] != GAVE_UP:
+                aborted = 'gate'
                 break          # a parent call blocked for GATE_WAIT_S: stop
+            if 'hang' in res[-1]:
+                aborted = 'hang'
+                break          # every further case would wait as long
         except BaseException as exc:                    # noqa
             import traceback
             res.append(dict(case=case, errors=[],
                             crash=traceback.format_exc()[-1500:]))
+    HELPER.close()
     import billiard
     left = [repr(c) for c in billiard.active_children()]
     with open(args['out'] + '.tmp', 'w') as f:
-        json.dump(dict(results=res, left=left), f)
+        json.dump(dict(results=res, left=left, aborted=aborted), f)
     os.replace(args['out'] + '.tmp', args['out'])
 
 
@@ -1029,6 +1126,13 @@ def judge_real(o):
     m, kind, arg = case['method'], case['kind'], case['arg']
     if o.get('crash'):
         return None
+    if o.get('hang'):
+        h = o['hang']
+        return ('%s on a running child (blocked on a pipe only the parent '
+                'writes to) did not return: still pending after %d s during '
+                'which %d round trips with a helper process completed; it '
+                'came back only when the child was killed'
+                % (h['call'], h['waited_at_least_s'], h['round_trips']))
     if o['errors']:
         return 'an operation raised: %s' % '; '.join(o['errors'])
     if kind == 'foreign':
@@ -1049,7 +1153,8 @@ def judge_real(o):
         return ('child blocked on the gate (it acknowledged after the gate '
                 'opened): exitcode=%r is_alive()=%r' % tuple(o['gated'][:2]))
     if 'gated' in o and o['after_timed_join'] != [None, True]:
-        return ('after join(0)/join(timeout=0.05) on a blocked child: '
+        return ('after join(0)/join(-1)/join(-0.25)/join(timeout=0.05) on a '
+                'blocked child: '
                 'exitcode=%r is_alive()=%r' % tuple(o['after_timed_join']))
     code, alive, active, in_set, code2 = o['ended']
     if kind == 'ret':
@@ -1096,7 +1201,7 @@ def harness_problem(o):
         if o.get('foreign') is None:
             return 'the reporting child sent nothing: %r' % (o,)
         return None
-    if o['errors'] and 'ended' not in o:
+    if o.get('hang') or (o['errors'] and 'ended' not in o):
         return None                    # judged as a violation
     if case['kind'] != 'pkill' and o.get('ack') != 'passed':
         return ('the child never acknowledged the gate (exit %r)'
@@ -1151,7 +1256,8 @@ def real_chunk(arg):
             err += '\n' + f.read().decode('utf8', 'replace')[-2000:]
     shutil.rmtree(d, ignore_errors=True)
     return dict(results=res['results'] if res else [],
-                left=res['left'] if res else [], error=err)
+                left=res['left'] if res else [],
+                aborted=res.get('aborted') if res else None, error=err)
 
 
 REAL_PAR = 8
@@ -1169,6 +1275,8 @@ def run_real(rep, tier, seed):
     res = par.pmap('harness.c19:real_chunk', chunks)
     got = {}
     problems = []
+    hung = any(r.get('aborted') == 'hang' for r in res)
+    skipped = 0
     for r in res:
         if r['error']:
             problems.append(r['error'])
@@ -1182,7 +1290,10 @@ def run_real(rep, tier, seed):
         cid = case_id(c)
         o = got.get(cid)
         if o is None:
-            problems.append('no result for %s' % cid)
+            if hung:
+                skipped += 1       # its interpreter stopped after a hang
+            else:
+                problems.append('no result for %s' % cid)
             continue
         hp = harness_problem(o)
         if hp:
@@ -1222,6 +1333,11 @@ def run_real(rep, tier, seed):
                  samples=st['samples'],
                  recorded_not_judged={k: v for k, v in sorted(silent.items())
                                       if k.startswith(m + ' ')})
+    if skipped:
+        rep.cov['exhaustive'] = False
+        rep.cov['caps'].append('real: %d cases not run (their interpreter '
+                               'stopped after a call that did not return)'
+                               % skipped)
     if problems:
         raise vs.HarnessError('real-process part could not be judged:\n' +
                               '\n'.join(problems[:10]))
